@@ -191,9 +191,15 @@ func genC05Files(c *ctx) []*mfile {
 			prec = 12
 		}
 		o := jpegOpt{w: uint16(dj[rng.Intn(len(dj))]), h: uint16(dj[rng.Intn(len(dj))]), precision: prec, ncomp: pick(rng, 1, 3, 3, 4), progressive: prog,
-			nBefore: rng.Intn(5), nAfter: rng.Intn(4), body: rng.Intn(500), realTables: tables}
+			nBefore: rng.Intn(5), nAfter: rng.Intn(4), body: rng.Intn(500), realTables: tables, noJFIF: j%3 == 1}
 		f := buildJPEG(rng, o)
-		f.Name = fmt.Sprintf("jpeg-%dx%d-p%d-c%d-prog%v", o.w, o.h, prec, o.ncomp, prog)
+		f.Name = fmt.Sprintf("jpeg-%dx%d-p%d-c%d-prog%v-nojfif%v", o.w, o.h, prec, o.ncomp, prog, o.noJFIF)
+		out = append(out, f)
+	}
+	for j := 0; j < c.n(6, 60); j++ {
+		w, h := 1+rng.Intn(70), 1+rng.Intn(50)
+		f := stdlibJPEG(rng, w, h, j%2 == 0)
+		f.Name = fmt.Sprintf("jpeg-stdlib-%dx%d-gray%v", w, h, j%2 == 0)
 		out = append(out, f)
 	}
 	// WebP
@@ -381,7 +387,8 @@ func smallCorpus(c *ctx) []*mfile {
 	add(buildWebP(rng, webpOpt{kind: "vp8l", w: 100, h: 7, body: 100}), "small-webp-vp8l")
 	add(buildWebP(rng, webpOpt{kind: "vp8x", w: 1200, h: 900, icc: genProfile(rng, 350, false), flagICC: true, body: 60}), "small-webp-vp8x-icc")
 	add(buildWebP(rng, webpOpt{kind: "vp8x", w: 12, h: 9, icc: genProfile(rng, 50, false), flagICC: true, damage: "missing-iccp", body: 60}), "small-webp-vp8x-missing-iccp")
-	_ = tables
+	add(buildJPEG(rng, jpegOpt{w: 31, h: 21, precision: 8, ncomp: 3, nBefore: 2, nAfter: 1, body: 40, realTables: tables, noJFIF: true}), "small-jpeg-nojfif")
+	add(stdlibJPEG(rng, 37, 21, false), "small-jpeg-stdlib")
 	return out
 }
 
@@ -401,6 +408,12 @@ func junkInputs(c *ctx) [][2]interface{} {
 	add("riff-webp+jpeg", append([]byte("RIFF\x10\x00\x00\x00WEBP"), j.Data...))
 	add("png-without-ihdr", append(append([]byte{}, pngSigBytes...), pngChunk("IDAT", []byte{1, 2, 3})...))
 	add("jpeg-without-sof", []byte{0xff, 0xd8, 0xff, 0xda, 0, 2, 0xff, 0xd9})
+	// frame headers shorter than the five bytes the loader indexes (all declared bytes present)
+	add("jpeg-short-sof", []byte{0xff, 0xd8, 0xff, 0xc0, 0x00, 0x04, 0x08, 0x00, 0xff, 0xda, 0, 2, 0xff, 0xd9})
+	add("jpeg-sof-then-short-sof", append(append([]byte{0xff, 0xd8}, jpegSeg(0xc0, []byte{8, 0, 16, 0, 15, 1, 1, 0x11, 0})...),
+		0xff, 0xc2, 0x00, 0x05, 0xaa, 0xbb, 0xcc, 0xff, 0xda, 0, 2, 0xff, 0xd9))
+	add("jpeg-dri-as-sof", append(append(append([]byte{0xff, 0xd8}, jpegSeg(0xe0, []byte("JFIF\x00\x01\x01\x00\x00\x01\x00\x01\x00\x00"))...),
+		jpegSeg(0xc0, []byte{8, 0, 16, 0, 15, 1, 1, 0x11, 0})...), 0xff, 0xc0, 0x00, 0x04, 0x00, 0x10, 0xff, 0xda, 0, 2, 0xff, 0xd9))
 	add("random-16", randBytes(rng, 16))
 	add("random-5000", randBytes(rng, 5000))
 	w := buildWebP(rng, webpOpt{kind: "vp8", w: 3, h: 3, body: 10})
@@ -576,6 +589,13 @@ func init() {
 			}
 		}
 		c.runJobs(jobs)
+		// concrete source types (seekable or not, at an offset of a larger object, files, buffers)
+		for _, in := range inputs {
+			if len(in.data) > 20000 {
+				continue
+			}
+			checkSourceKinds(c, "C07", in.name, in.data, []string{"auto", []string{"png", "jpeg", "webp"}[rng.Intn(3)]}, rng)
+		}
 		// histories: several Loads first, the streams are read only afterwards (and in another order)
 		for round := 0; round < c.n(60, 600); round++ {
 			k := 2 + rng.Intn(4)
@@ -872,6 +892,15 @@ func init() {
 			})
 		}
 		c.runJobs(jobs)
+		// concrete source types: autometa on a seekable / offset / file source = autometa on the plain bytes
+		nk := 0
+		for _, in := range inputs {
+			if len(in.data) > 20000 || nk >= c.n(60, 600) {
+				continue
+			}
+			nk++
+			checkSourceKinds(c, "C19", in.name, in.data, []string{"auto"}, rng)
+		}
 		// histories: several auto-detecting loads first, their streams read afterwards
 		for round := 0; round < c.n(60, 600); round++ {
 			k := 2 + rng.Intn(4)
